@@ -2,7 +2,7 @@
 from concurrent.futures import ProcessPoolExecutor
 
 from .. import coq, edits
-from . import C06 as h
+from . import C06 as h  # noqa: E402  (C06 imports this module lazily inside run)
 
 PROPOSALS = ["bootstrap", "semi-adapted", "fully-adapted"]
 
@@ -54,8 +54,8 @@ def run(ctx):
     ctx.exhaustive = False
     # (a) edit histories
     if ctx.quick:
-        jobs = [(ctx.rng.randrange(10**9), ctx.rng.randint(5, 8), 12 if k < 8 else 40, k < 8) for k in range(60)]
-        sjobs = sampler_plan(ctx, 24, 5)
+        jobs = [(ctx.rng.randrange(10**9), ctx.rng.randint(5, 8), 12 if k < 12 else 40, k < 12) for k in range(160)]
+        sjobs = sampler_plan(ctx, 60, 6)
     else:
         jobs = [(ctx.rng.randrange(10**9), ctx.rng.randint(5, 10), 14 if k < 30 else ctx.rng.choice([40, 80, 150, 300]), k < 30) for k in range(330)]
         sjobs = sampler_plan(ctx, 180, 10)
